@@ -74,7 +74,7 @@ Definition from_encoded_array (st : dst) : res cerr (list N * N) :=
                   | O => Err EFuel
                   | S k' =>
                       match l with
-                      | [] => Ok (rev acc)
+                      | [] => Ok (frev acc)
                       | _ => let c := takeN w l in
                              if len c <? w then Err EBounds
                              else let o := le_val c in
@@ -91,7 +91,7 @@ Definition grd_fixed (st : dst) (n : N) : res cerr (N * dst) :=
 
 (* deserialize_str: the whole rest of the slice is the string; one trailing nul (if any) is dropped *)
 Definition strip_nul (s : bytes) : bytes :=
-  match rev s with c :: r => if is_zero c then rev r else s | [] => s end.
+  match s with [] => [] | _ => if is_zero (last s x01) then removelast s else s end.
 Definition gde_str (st : dst) : res cerr (bytes * dst) :=
   match r_sig st with
   | SStr | SSig | SObjPath =>
@@ -261,7 +261,7 @@ Fixpoint gde (fuel : nat) (st : dst) {struct fuel} : res cerr (gval * dst) :=
               match k with
               | O => Err EFuel
               | S k' =>
-                  if garr_done st a offs then Ok (rev acc, garr_finish st a)
+                  if garr_done st a offs then Ok (frev acc, garr_finish st a)
                   else
                     (* element_end(true) *)
                     let '(end_, offs') := match offs with
@@ -285,7 +285,7 @@ Fixpoint gde (fuel : nat) (st : dst) {struct fuel} : res cerr (gval * dst) :=
               match k with
               | O => Err EFuel
               | S k' =>
-                  if garr_done st a offs then Ok (rev acc, garr_finish st a)
+                  if garr_done st a offs then Ok (frev acc, garr_finish st a)
                   else
                     (* next_key_seed *)
                     let* st := gparse_padding st (a_al a) in
@@ -340,7 +340,7 @@ Fixpoint gde (fuel : nat) (st : dst) {struct fuel} : res cerr (gval * dst) :=
           let loop := fix loop (gs : list sig) (st : dst) (end_ offsets_len : N) (acc : list gval) {struct gs}
               : res cerr (list gval * dst) :=
               match gs with
-              | [] => Ok (rev acc, st)
+              | [] => Ok (frev acc, st)
               | g :: r =>
                   let last := match r with [] => true | _ => false end in
                   let* (element_end, end', offsets_len') :=
